@@ -212,6 +212,11 @@ Proof.
 Qed.
 Lemma ex_ident v og c name ts : ctx_ok v og c -> ex v ts -> ex v ((false, AId RIdent (q c) name og) :: ts).
 Proof. intros [H _] Ht. constructor; [exact H|exact Ht]. Qed.
+Lemma ex_qual v og c tb name ts : ctx_ok v og c -> ex v ts -> ex v ((false, AId (qual_role tb) (q c) name og) :: ts).
+Proof.
+  intros [H _] Ht. constructor; [|exact Ht]. unfold qual_role.
+  destruct (truthy_ostr (talias tb)); [destruct (tname tb)|]; exact H.
+Qed.
 Lemma ex_str v og c s ts : ctx_ok v og c -> ex v ts -> ex v ((false, AStr (sq c) s og) :: ts).
 Proof. intros [_ [H _]] Ht. constructor; [exact H|exact Ht]. Qed.
 Lemma ex_alias v og c ts alias : ctx_ok v og c -> ex v ts -> ex v (alias_toks c og (q c) ts alias).
@@ -223,11 +228,11 @@ Qed.
 Lemma ex_field v og c name tbl : ctx_ok v og c -> ex v (field_toks c og name tbl).
 Proof.
   intros H. unfold field_toks. destruct tbl as [tb|]; [destruct (wn c || truthy_ostr (talias tb))|];
-    repeat (apply ex_ident; [exact H|]); try apply ex_T; repeat (apply ex_ident; [exact H|]); apply ex_nil.
+    try (apply ex_qual; [exact H|]); try apply ex_T; repeat (apply ex_ident; [exact H|]); apply ex_nil.
 Qed.
 
 #[export] Hint Resolve ctx_ok_set_wa ctx_ok_set_subq ctx_ok_set_subc ctx_ok_set_wn ctx_ok_fctx
-  ex_nil ex_T ex_V ex_bool ex_app ex_tparen ex_vparen ex_tjoin ex_ident ex_str ex_alias ex_field : exdb.
+  ex_nil ex_T ex_V ex_bool ex_app ex_tparen ex_vparen ex_tjoin ex_ident ex_qual ex_str ex_alias ex_field : exdb.
 
 Ltac inv_bind H :=
   repeat match type of H with
@@ -365,7 +370,8 @@ Proof. apply erase_falias. Qed.
 Lemma erase_field c og name tbl :
   erase (field_toks c og name tbl) =
   match tbl with
-  | Some tb => if wn c || truthy_ostr (talias tb) then [EId EIdent (table_name tb); EText "."; EId EIdent name] else [EId EIdent name]
+  | Some tb => if wn c || truthy_ostr (talias tb)
+               then [EId (erole_of (qual_role tb)) (table_name tb); EText "."; EId EIdent name] else [EId EIdent name]
   | None => [EId EIdent name] end.
 Proof. unfold field_toks. destruct tbl as [tb|]; [destruct (wn c || truthy_ostr (talias tb))|]; reflexivity. Qed.
 Lemma erase_mark_group ts : erase (mark_group ts) = [].
